@@ -42,7 +42,12 @@ def run(harnesses: List[str], repo: str = '/repo', jobs: int = 8, timeout: int =
     t0 = time.time()
     res = {h: HarnessResult(h) for h in harnesses}
     import signal
-    proc = subprocess.Popen(cmd, cwd=repo, env=env, stdout=subprocess.PIPE, stderr=subprocess.PIPE, text=True, start_new_session=True)
+    def limit():
+        # a CBMC run that needs more than this is abandoned (undecided) instead of taking the machine down
+        import resource
+        gb = int(os.environ.get('VERIF_KANI_MEM_GB', '24'))
+        resource.setrlimit(resource.RLIMIT_AS, (gb << 30, gb << 30))
+    proc = subprocess.Popen(cmd, cwd=repo, env=env, stdout=subprocess.PIPE, stderr=subprocess.PIPE, text=True, start_new_session=True, preexec_fn=limit)
     try:
         so, se = proc.communicate(timeout=timeout)
         out = so + '\n' + se
